@@ -284,7 +284,7 @@ def run(ctx):
             if c.kind == "larray":
                 pre = rc.encode(c.desc[1], len(v) // (8 * c.desc[2][1]) if c.desc[2][0] == "bits" else len(v))
                 check_decode(res, c, pre + enc + b"\xee\xee")
-            elif c.kind in ("uarray", "rest"):
+            elif tg.consumes_rest(c.desc):
                 check_decode(res, c, enc)
             else:
                 check_decode(res, c, enc + b"\xee\xee\xee")
